@@ -191,8 +191,10 @@ add("C07", "tds-sim", "exploration",
     "A classical machine against an infinite bus through 2-3 parallel lines is built from seeded inertia, damping, reactances, loading, voltage "
     "and base frequency with 1-4 seeded line-switching events (on/off grid, ulp neighbours, close pairs); the real TDS (both methods) at h and "
     "h/2 is compared with the swing equation integrated by SciPy DOP853 between switching instants from the power-flow-derived E'. Stock "
-    "cases (limiters inside, no zero time constants) are perturbed by eps*v, made consistent by a 1e-6 s segment and compared with x* + "
-    "expm(A t) d, A assembled by numpy. The error must shrink with the step and lie within three times the Richardson estimate.",
+    "cases (limiters inside, no zero time constants) are perturbed by eps*d, made consistent by a 1e-6 s segment and compared (i) with the "
+    "integration rule itself applied to the densely assembled linearisation on the time stamps actually produced (agreement to second-order "
+    "terms) and (ii) with x* + expm(A t) d, from which the run may differ by exactly that rule's discretisation error; the requested fixed "
+    "step must be the step taken and the error must not grow on halving. The SMIB error must shrink with the step within a Richardson bound.",
     "Trusted: SciPy's integrator and expm as references; phasor algebra for E'; nonlinearity floor 2*response^2 in the small-signal benchmark; "
     "backward Euler is only required to improve (<= 0.92x) at these step sizes.", "DESIGN.md section 4, C07")
 
